@@ -118,6 +118,31 @@ Example ex_iterators :
   map o_id (iter_inside ex_pus 3 (bs_of_N 13)) = [3; 6; 7] /\ map o_id (iter_covering ex_pus 3 (bs_of_N 6)) = [4; 6].
 Proof. vm_compute. auto. Qed.
 
+(* hwloc_get_nbobjs_inside_cpuset_by_depth / hwloc_get_obj_inside_cpuset_by_depth /
+   hwloc_get_obj_index_inside_cpuset: for ALL levels and sets, with B the objects of the level with a
+   non-empty cpuset inside the set, in logical order: nbobjs = |B|; for every member o of B,
+   index_inside(o) is its position k in B and obj_inside(k) is o again; obj_inside never leaves B;
+   an object whose cpuset is not inside the set gets -1 *)
+Theorem inside_index_roundtrip : forall lv depth set,
+  level_ok depth lv 0 = true ->
+  get_nbobjs_inside_cpuset_by_depth lv set = N.of_nat (List.length (filter (inside_pred set) lv)) /\
+  (forall o, In o lv -> inside_pred set o = true ->
+     exists k, get_obj_index_inside_cpuset lv set o = Z.of_nat k /\ (k < List.length (filter (inside_pred set) lv))%nat /\
+               get_obj_inside_cpuset_by_depth lv set (N.of_nat k) = Some o) /\
+  (forall o, bs_subset (dcs o) set = false -> get_obj_index_inside_cpuset lv set o = (-1)%Z) /\
+  (forall k o, get_obj_inside_cpuset_by_depth lv set k = Some o -> In o lv /\ inside_pred set o = true).
+Proof. exact inside_index_roundtrip_l. Qed.
+Print Assumptions inside_index_roundtrip.
+
+(* a level with a CPU-less object in the middle: its successors keep consecutive indexes *)
+Example ex_inside_index :
+  let lv := [mkd 1 HWLOC_OBJ_PACKAGE 1 0 0 0 3; mkd 2 HWLOC_OBJ_PACKAGE 1 1 0 1 0; mkd 3 HWLOC_OBJ_PACKAGE 1 2 0 2 12] in
+  level_ok 1 lv 0 = true /\
+  get_nbobjs_inside_cpuset_by_depth lv bs_full = 2 /\
+  map (get_obj_index_inside_cpuset lv bs_full) lv = [0; 1; 1]%Z /\
+  option_map o_id (get_obj_inside_cpuset_by_depth lv bs_full 1) = Some 3.
+Proof. vm_compute. auto. Qed.
+
 (* ---------- cpuset <-> nodeset ---------- *)
 
 Theorem cpuset_nodeset_locality : forall nl,
